@@ -101,6 +101,11 @@ MdItems(st)   == LET p == Purge(st) IN [i \in 1..Len(p) |-> <<p[i][1], p[i][2][1
 MdKeys(st)    == [i \in 1..Len(st) |-> st[i][1]]
 MdListVals(st) == [i \in 1..Len(st) |-> st[i][2]]
 Conv(vs)      == LET g == SelectSeq(vs, IsDigits) IN [i \in 1..Len(g) |-> DecVal(g[i])]
+\* getlist(key, type=int): "all items will be converted ... if a ValueError is raised, the value is
+\* omitted": the values whose text is a decimal integer, converted, in order
+TypedList(vs) == Conv(vs)
+\* get(key, default, type=int): the first value converted, the default when there is none or it fails
+TypedGet(vals, dflt) == IF vals # <<>> /\ IsDigits(vals[1]) THEN RInt(DecVal(vals[1])) ELSE dflt
 
 MdMutators == {"setitem", "delitem", "add", "setlist", "setdefault", "setlistdefault", "update",
                "ior", "pop", "popitem", "poplist", "popitemlist", "clear", "add_file"}
@@ -151,7 +156,9 @@ MdRead(st, name, a) ==
     [] name = "listvalues"  -> RLists(MdListVals(st))
     [] name = "len"         -> RInt(Len(st))
     [] name = "getlist"     -> RList(vals)
-    [] name = "getlist_int" -> RInts(Conv(vals))
+    [] name = "getlist_int" -> RInts(TypedList(vals))
+    [] name = "getlist_str" -> RList(vals)                      \* type=str converts every (str) value to itself
+    [] name = "get_int_default" -> TypedGet(vals, RVal(a.v))
     [] name = "get"         -> IF vals = <<>> THEN RNone ELSE RVal(vals[1])
     [] name = "get_default" -> IF vals = <<>> THEN RVal(a.v) ELSE RVal(vals[1])
     [] name = "get_int"     -> IF vals # <<>> /\ IsDigits(vals[1]) THEN RInt(DecVal(vals[1])) ELSE RNone
@@ -179,12 +186,16 @@ CmRead(D, name, a) ==
     [] name = "listvalues"  -> RLists([i \in 1..Len(CmLists(D)) |-> CmLists(D)[i][2]])
     [] name = "len"         -> RInt(Len(CmAllKeys(D)))
     [] name = "getlist"     -> RList(CmGetList(D, k))
-    [] name = "getlist_int" -> RInts(Conv(CmGetList(D, k)))
+    [] name = "getlist_int" -> RInts(TypedList(CmGetList(D, k)))
+    [] name = "getlist_str" -> RList(CmGetList(D, k))
     [] name = "get"         -> IF f = 0 THEN RNone ELSE IF MdVals(D[f], k) = <<>> THEN KeyErr ELSE RVal(MdVals(D[f], k)[1])
     [] name = "get_default" -> IF f = 0 THEN RVal(a.v) ELSE IF MdVals(D[f], k) = <<>> THEN KeyErr ELSE RVal(MdVals(D[f], k)[1])
     [] name = "get_int"     ->      \* the first dict that has the key and whose first value converts
          LET g == FirstIdx(D, LAMBDA d : MdHas(d, k) /\ (MdVals(d, k) = <<>> \/ IsDigits(MdVals(d, k)[1]))) IN
          IF g = 0 THEN RNone ELSE IF MdVals(D[g], k) = <<>> THEN KeyErr ELSE RInt(DecVal(MdVals(D[g], k)[1]))
+    [] name = "get_int_default" ->      \* the first dict that has the key and whose first value converts
+         LET g == FirstIdx(D, LAMBDA d : MdHas(d, k) /\ (MdVals(d, k) = <<>> \/ IsDigits(MdVals(d, k)[1]))) IN
+         IF g = 0 THEN RVal(a.v) ELSE IF MdVals(D[g], k) = <<>> THEN KeyErr ELSE RInt(DecVal(MdVals(D[g], k)[1]))
     [] name = "getitem"     -> IF f = 0 \/ MdVals(D[f], k) = <<>> THEN KeyErr ELSE RVal(MdVals(D[f], k)[1])
     [] name = "contains"    -> RBool(f # 0)
     [] OTHER -> RExc("?unknown-read")
@@ -252,7 +263,9 @@ HdRead(st, name, a) ==
     [] name = "len"         -> RInt(n)
     [] name = "str"         -> RVal(Concat([i \in 1..n |-> HdLine(st[i])]) \o <<13, 10>>)
     [] name \in {"getlist", "get_all"} -> RList(vals)
-    [] name = "getlist_int" -> RInts(Conv(vals))
+    [] name = "getlist_int" -> RInts(TypedList(vals))
+    [] name = "getlist_str" -> RList(vals)                      \* type=str converts every (str) value to itself
+    [] name = "get_int_default" -> TypedGet(vals, RVal(a.v))
     [] name = "get"         -> IF vals = <<>> THEN RNone ELSE RVal(vals[1])
     [] name = "get_default" -> IF vals = <<>> THEN RVal(a.v) ELSE RVal(vals[1])
     [] name = "get_int"     -> IF vals # <<>> /\ IsDigits(vals[1]) THEN RInt(DecVal(vals[1])) ELSE RNone
@@ -331,7 +344,11 @@ EhRead(env, name, a) ==
     [] name = "get"      -> IF p = 0 THEN RNone ELSE RVal(env[p][2])
     [] name = "getitem"  -> IF p = 0 THEN KeyErr ELSE RVal(env[p][2])
     [] name = "contains" -> RBool(p # 0)
-    [] name = "getlist"  -> RList(HdVals(it, a.k))
+    [] name \in {"getlist", "get_all", "getlist_str"} -> RList(HdVals(it, a.k))
+    [] name = "getlist_int"     -> RInts(TypedList(HdVals(it, a.k)))        \* read through the view, not a stored list
+    [] name = "get_default"     -> IF p = 0 THEN RVal(a.v) ELSE RVal(env[p][2])
+    [] name = "get_int"         -> IF p = 0 THEN RNone ELSE TypedGet(<<env[p][2]>>, RNone)
+    [] name = "get_int_default" -> IF p = 0 THEN RVal(a.v) ELSE TypedGet(<<env[p][2]>>, RVal(a.v))
     [] OTHER -> RExc("?unknown-read")
 HdMutators == {"set", "setitem", "add", "extend", "update", "ior", "remove", "delitem", "delitem_idx",
                "setitem_idx", "pop", "pop_idx", "pop_last", "popitem", "setlist", "setdefault",
